@@ -27,3 +27,16 @@ package sync
 //@   ensures normal && old(e.once.fired) ==> result0 == old(e.value) && result1 == old(e.err) && e.err == old(e.err) && e.value == old(e.value)
 //@   ensures normal && !old(e.once.fired) ==> result0 == app(fn) && result1 == app1(fn) && e.value == app(fn) && e.err == app1(fn)
 //@   ensures panics ==> !old(e.once.fired) && apppanics(fn)
+
+// sync.Pool-backed buffer pool: ASSUMED (standard library). Get may hand out a
+// buffer that was Put earlier; Put resets the buffer and keeps it for reuse.
+//@ func (*BufferPool).Get()
+//@   props C11
+//@   trusted "sync.Pool: returns some buffer, possibly one that was Put earlier (nothing is assumed about its storage)"
+//@   nopanic
+//@   defines result != nil
+//@ func (*BufferPool).Put(b)
+//@   props C11
+//@   trusted "sync.Pool: resets the buffer and keeps it for reuse"
+//@   nopanic
+//@   modifies *b
